@@ -478,13 +478,13 @@ def plat(incs=None, full=None, toggles=None, setbufs=None, openargs=None):
             'openargs': openargs or [{}]}
 
 
-def gen_pool(rnd, ir, dname, nrec=10, nopen=2):
+def gen_pool(rnd, ir, dname, nrec=10, nopen=2, darr_len=None):
     d = [x for x in ir['dsts'] if x['name'] == dname][0]
-    openargs = [gencfg.struct_args(rnd, d['pcExtra'], 'pc') for _ in range(nopen)]
+    openargs = [gencfg.struct_args(rnd, d['pcExtra'], 'pc', darr_len=darr_len) for _ in range(nopen)]
     recs = []
     for _ in range(nrec):
         e = rnd.choice(d['erts'])
-        recs.append((e['name'], gen_trace_args(rnd, d, e)))
+        recs.append((e['name'], gen_trace_args(rnd, d, e, darr_len=darr_len)))
     return openargs, recs
 
 
@@ -507,13 +507,21 @@ def gen_history(rnd, ir, dname, openargs, recs, hdr, sizes, length=None, toggles
         buf = max(buf, hdr_bytes)
     else:
         buf = hdr_bytes + rnd.randint(0, 6 * typical + 8)
+    # a family of histories that fill packets *exactly*: one record repeated, buffer = header + m records
+    mono = None
+    if recs and sizes and rnd.random() < 0.25:
+        j = rnd.randrange(min(len(recs), len(sizes)))
+        if sizes[j] % 8 == 0 and sizes[j] > 0:
+            mono = recs[j]
+            buf = hdr_bytes + rnd.choice([1, 2, 2, 3]) * (sizes[j] // 8)
+            length = max(length, 12)
     calls = []
     if rnd.random() < 0.92:
         calls.append(['open'])
     for _ in range(length):
         x = rnd.random()
-        if x < 0.68 and recs:
-            en, a = rnd.choice(recs)
+        if x < (0.8 if mono else 0.68) and recs:
+            en, a = mono or rnd.choice(recs)
             calls.append(['trace', en, a])
         elif x < 0.76:
             calls.append(['close'])
